@@ -102,6 +102,9 @@ func (e *Engine) liveSyms(st *State, extra []AVal) map[Sym]bool {
 		for _, t := range h.nlen.T {
 			live[t.S] = true
 		}
+		if h.member != nil {
+			symsOfVal(*h.member, live)
+		}
 	}
 	for _, v := range extra {
 		if v != nil {
